@@ -202,7 +202,7 @@ def run_pool(case):
                 res.violation("crash", "gwf -b local run failed", **cli.crash_witness(r))
                 return res
             tid = proj.state_files().get("local-backend-tracked.json", {})
-            pool.wait_states(lambda st: list(st.values()).count("RUNNING") == 2, timeout=20)
+            pool.wait_states(lambda st: list(st.values()).count("RUNNING") == 2, timeout=40)
             before = pool.states()
             r = cli.gwf(proj.root, ["cancel", "a0", "never"], env, audit=False)
             res.mon("cancel_runs")
@@ -212,7 +212,7 @@ def run_pool(case):
                 return res
             if "Target never could not be cancelled" not in r.out + r.err:
                 res.violation("uncancellable-not-reported", "never-submitted target not reported by cancel on local backend", out=(r.out + r.err)[-400:])
-            pool.wait_states(lambda st: st.get(tid["a0"]) == "CANCELLED" and st.get(tid["b0"]) == "CANCELLED", timeout=20)
+            pool.wait_states(lambda st: st.get(tid["a0"]) == "CANCELLED" and st.get(tid["b0"]) == "CANCELLED", timeout=45)
             st = pool.states()
             if st.get(tid["a0"]) != "CANCELLED":
                 res.violation("still-live-after-cancel", "local: a0 is %s after cancel" % st.get(tid["a0"]))
@@ -244,7 +244,7 @@ def run_pool(case):
                     res.violation("still-live-after-cancel", "local: a task cancelled right after it was enqueued (same packet) is %s, not CANCELLED" % pool.states().get(nxt))
             # all the rest with the prompt confirmed
             r = cli.gwf(proj.root, ["cancel"], env, stdin="y\n", audit=False)
-            pool.wait_states(lambda st: all(v in ("CANCELLED", "COMPLETED", "FAILED", "KILLED") for v in st.values()), timeout=30)
+            pool.wait_states(lambda st: all(v in ("CANCELLED", "COMPLETED", "FAILED", "KILLED") for v in st.values()), timeout=60)
             st = pool.states()
             res.mon("pool_cancels")
             if any(v in ("RUNNING", "SUBMITTED") for v in st.values()):
